@@ -65,8 +65,6 @@ Definition d_push_bytes (s : dstr) (bytes : list N) (seq_length : nat) : option 
   if negb (Nat.leb seq_length (length bytes * 8 / 2)) then None else
   d_push_all s (map (fun i => N.land (N.shiftr (nth ((i * 2) / 8) bytes 0) (N.of_nat ((i * 2) mod 8))) 3) (seq 0 seq_length)).
 
-Fixpoint omapN {A} (f : nat -> option A) (l : list nat) : option (list A) :=
-  match l with [] => Some [] | i :: r => do x <- f i; do t <- omapN f r; Some (x :: t) end.
 Definition d_to_bytes (s : dstr) : option (list N) := omapN (d_get s) (seq 0 (d_len s)).
 Definition bits_to_ascii (b : N) : N := nth (N.to_nat b) tbl_bits_to_ascii 88.
 Definition d_to_ascii (s : dstr) : option (list N) := do l <- d_to_bytes s; Some (map bits_to_ascii l).
@@ -88,13 +86,8 @@ Definition d_ndiffs (a b : dstr) : option N :=
 
 (* derived PartialEq / Ord: storage vector (lexicographic, shorter first) then len; Hash: vec length,
    blocks, len - all as 8-byte little-endian words *)
-Fixpoint nlist_compare (a b : list N) : comparison :=
-  match a, b with
-  | [], [] => Eq | [], _ => Lt | _, [] => Gt
-  | x :: a', y :: b' => match x ?= y with Eq => nlist_compare a' b' | c => c end
-  end.
 Definition d_cmp (a b : dstr) : comparison :=
-  match nlist_compare (d_sto a) (d_sto b) with Eq => Nat.compare (d_len a) (d_len b) | c => c end.
+  match nlist_cmp (d_sto a) (d_sto b) with Eq => Nat.compare (d_len a) (d_len b) | c => c end.
 Definition d_eq (a b : dstr) : bool := match d_cmp a b with Eq => true | _ => false end.
 Definition d_hash_feed (s : dstr) : list N := N.of_nat (length (d_sto s)) :: d_sto s ++ [N.of_nat (d_len s)].
 
